@@ -49,6 +49,21 @@ CHECKS = {
         "assumptions": ["NUL through escapeHtml/changeNewlineToBr/insertWordBreaks is not judged (U+FFFD replacement is neither required nor forbidden by the statement)",
                         "chains with two HTML-producing directives or truncate after one are not judged by the invariant"],
     },
+    "C04": {
+        "test": "TestC04", "level": "translation_validation", "needs_node": True,
+        "quick": {"shards": 8, "checks": 500, "timeout": 900},
+        "thorough": {"shards": 16, "checks": 8000, "timeout": 3400},
+        "rule": "bundles of the common subset (boolean operands for and/or/not, same-kind equality, no collection printing, no key-order dependence, "
+                "ints within 2^53, directives noAutoescape/id/escapeHtml/truncate/changeNewlineToBr/insertWordBreaks) over the whole command grammar "
+                "incl. scoping stress patterns, nested loops with loop functions, calls across files, globals, $ij, autoescape modes, msg and plural; "
+                "each is translated with soyjs.Write (ES5) and executed in node with the same data; non-trivial = the program has control flow or a "
+                "call, a print, and data",
+        "technique": "differential / translation validation: property-based generation (rapid), Go render vs generated JavaScript executed in node, guarded by the reference interpreter",
+        "level_text": "translation validation by execution: every generated program is translated and the translation's output compared byte for byte (quote reference spelling identified) with the Go renderer's",
+        "level_note": "node v20 with a fresh vm context and soyjs/lib/soyutils.js per case; cases where the Go output differs from the reference interpreter are left to C01/C02 and counted",
+        "assumptions": ["&quot; and &#34; are identified (also after re-escaping); /usr/bin/node is present (exit 2 otherwise)",
+                        "cells the reference leaves unspecified and the two open findings (F13 negative half-way round, F14 astral truncate) are excluded and counted"],
+    },
     "C05": {
         "test": "TestC05", "level": "exploration", "crashy": True,
         "quick": {"shards": 8, "checks": 4000, "timeout": 900},
